@@ -181,6 +181,9 @@ class Issue:
             self.fdata.seek(0)
             for line_num in range(1, lmin):
                 self.fdata.readline()
+        else:
+            # drop a cached copy of the file that is older than the file
+            linecache.checkcache(self.fname)
 
         tmplt = "%i\t%s" if tabbed else "%i %s"
         for line in range(lmin, lmax):
